@@ -689,7 +689,7 @@ def toDb : ColT → PyVal → Res PyVal
     match v with
     | .none => .ok .none
     | .json t => .ok (.str t)
-    | .bytes _ | .datetime .. | .date .. | .time .. | .decimal _ | .uuid _ | .sqlobj _ => .invalid
+    | .bytes _ | .datetime .. | .date .. | .time .. | .decimal _ | .uuid _ | .sqlobj _ | .sqlobjS _ | .pickled _ => .invalid
     | _ => .unmodelled
   | .fkInt, v | .fkIntS, v => fkFromPython v
   | .fkStr, v => fkStrFromPython v
